@@ -265,6 +265,10 @@ ASCII_WORDS = [b"a", b"b", b"c", b"dir", b"src", b"main.go", b"README.md", b"Mak
                b"k8s", b"v1.2", b"node_modules", b"tmp"]
 BULLETY = [b"-", b"*", b"+", b"#", b"- x", b"* y", b"+ z", b"# h", b"a-b", b"a*b", b"a+b", b"a#b", b"--", b"-*+",
            b"a - b", b"x -", b" - lead", b"##x", b"C#", b"f#", b"x ##", b"a #"]
+# different names of equal length with the same 32-bit FNV-1a / CRC-32 / Adler-32 checksum (siblings looked up by a
+# checksum instead of the name would be merged)
+COLLIDE = [b"declinate", b"macallums", b"costarring", b"liquid", b"altarage", b"zinke", b"IMG_422789.jpg", b"IMG_639192.jpg",
+           b"plumless", b"buckeroo", b"Aa", b"BB", b"AaAa", b"BBBB", b"AaBB", b"BBAa"]
 # names with characters that are special to fmt / paths on other platforms / trailing blanks
 ODD = [b"a\\b", b"100%", b"cpu%d.txt", b"a%20b", b"%s", b"%!", b"sp ", b"tb\t", b"c:\\x"]
 UNICODE = ["日本語".encode(), "é".encode(), "é".encode(), "a b".encode(), "　x".encode(),
@@ -289,10 +293,12 @@ CASEY = [b"Makefile", b"makefile", b"MAKEFILE", b"README", b"Readme", b"readme",
 
 POOLS = {
     "ascii": ASCII_WORDS,
-    "mixed": ASCII_WORDS * 3 + BULLETY + UNICODE + BLANKY + CASEY + ODD + UNICODE2,
+    "mixed": ASCII_WORDS * 3 + BULLETY + UNICODE + BLANKY + CASEY + ODD + UNICODE2 + COLLIDE,
+    "collide": COLLIDE,
     "casey": CASEY,
     "hostile_fmt": ASCII_WORDS + HOSTILE_FMT * 2 + UNICODE + ODD + UNICODE2,
-    "fs": ASCII_WORDS * 4 + [b"f.go", b"g.go", b"Makefile", b"x.md", b"o", b"lib.o", b"a.tar.gz", b"b.tar.gz", b"GNUmakefile", b"profile"] + ODD,
+    "fs": ASCII_WORDS * 4 + [b"f.go", b"g.go", b"Makefile", b"x.md", b"o", b"lib.o", b"a.tar.gz", b"b.tar.gz", b"GNUmakefile", b"profile",
+                             b"makefile", b"MAKEFILE", b"README.MD", b"a.Md", b"CHANGELOG.MD", b"x.GO"] + ODD + COLLIDE,
     "fs_hostile": ASCII_WORDS * 3 + HOSTILE_FS,
     # sibling names that are prefixes of each other, continued by bytes sorting below and above '/'
     "fs_prefix": [b"cmd", b"cmd-old", b"cmd.md", b"cmd_x", b"cmd0", b"cmd x", b"cmd+", b"a", b"a-b", b"a.b", b"a b", b"ab", b"a_b", b"a!",
@@ -526,6 +532,8 @@ BF_CHOICES = [BF_DEFAULT, (b"+--", b"    ", b"|--", b"|   "), (b"", b"", b"", b"
               # connectors of DIFFERENT byte lengths for last / intermediate nodes
               (b"`---", b"   ", b"|-", b"|  "), (b"\\", b"", b"+---", b"|"), (b"", b"  ", b"*", b"."),
               ("└".encode(), b" ", b"+-", "│ ".encode()),
+              # two tuples whose continuation strings CONCATENATE to the same text as the defaults' ("    " + "│   ")
+              ("└──".encode(), b"  ", "├──".encode(), "  │   ".encode()), ("└──".encode(), b"    ", "├──".encode(), "│   ".encode()),
               # characters that are special to fmt
               (b"%-", b"% ", b"|%s", b"%d "), (b"`%%", b"  ", b"%v", b"%")]
 
